@@ -29,6 +29,8 @@ EXPORT int c20_log_take(int *buf, int cap) {
     g_nlog = 0;
     return k;
 }
+/* number of times a registration function of this library has been run (read by the harness via dlsym) */
+EXPORT int c20_reg_calls = 0;
 EXPORT void *c20_table_of(void *instance) { return &((inst_t *)instance)->F; }
 
 #define I ((inst_t *)instance)
@@ -99,6 +101,7 @@ static void f_l1(void *instance, r_t *lambda, alpaqa_length_t *size) { (void)ins
 static void cleanup(void *instance) { free(instance); }
 
 static alpaqa_problem_register_t make(alpaqa_register_arg_t arg) {
+    ++c20_reg_calls;
     alpaqa_problem_register_t r;
     ALPAQA_PROBLEM_REGISTER_INIT(&r);
     inst_t *in = calloc(1, sizeof *in);
